@@ -378,6 +378,7 @@ pub fn run(e: &'static Engine) {
          at cap and cap-1 of the version used the symbol is round-tripped. Non-trivial: length within +-1 of a threshold, or an \
          error result; distinct by case.",
     );
+    e.extend_rule("part other_entry_points (wasm qr / qr_svg with forced versions min-2..min+1); part thresholds_special_tokens (every special token at every Byte threshold -1..+4 of V1-V8, sampled above); class runs in long_mixed_class.");
     e.assume("reference capacity = geometry-derived total codewords minus typed Table 9 EC totals; equals qrcode crate's max_len for all 160 cells (self-test)");
     crate::engine::run_regress(e, &|c, o| replay(e, c, o));
     let mut jobs: Vec<Job> = Vec::new();
